@@ -700,7 +700,7 @@ func c13sSuite(r *Result, rng *rand.Rand, tier string) {
 		c13s.tables[t.Name] = t.table()
 	}
 	c13s.mu.Unlock()
-	maxFaults, ns := 3, []int{2}
+	maxFaults, ns := 5, []int{2}
 	if tier == "thorough" {
 		maxFaults, ns = 1000, []int{1, 3}
 	} else if tier == "search" {
